@@ -3,12 +3,15 @@ package main
 // C06: UUID equality vs value equality, Triple.Equal, Graph.Exist; UUID total and stable.
 
 import (
-	"math/rand"
 	"bufio"
 	"encoding/hex"
 	"encoding/json"
 	"fmt"
+	"github.com/google/badwolf/triple/literal"
+	"github.com/google/badwolf/triple/node"
+	"github.com/google/badwolf/triple/predicate"
 	"math"
+	"math/rand"
 	"os"
 	"os/exec"
 	"strings"
@@ -203,6 +206,9 @@ func stableCase(sp *VSpec, src string) {
 				break
 			}
 			ev.U = append(ev.U, u)
+			if i == 0 {
+				disturb() // other work of the library between two calls must not matter
+			}
 		}
 		if !ev.Panic {
 			var wg sync.WaitGroup
@@ -227,6 +233,27 @@ func stableCase(sp *VSpec, src string) {
 	}
 	countCase("US\x00"+v.K+string(key), true)
 	usItems = append(usItems, usItem{sp, ev})
+}
+
+// disturb makes the library do unrelated work on the same goroutine: successful and FAILED parses of every kind
+// of value (a parser that leaves something behind in a shared buffer or pool would change the next UUID).
+func disturb() {
+	protect(func() {
+		b := literal.DefaultBuilder()
+		for _, s := range []string{`"[104 105 x]"^^type:blob`, `"[1 2 3]"^^type:blob`, `"[300]"^^type:blob`, `"12x"^^type:int64`, `"1.5e"^^type:float64`,
+			`"abc"^^type:text`, `"maybe"^^type:bool`, `"x"^^type:nope`} {
+			b.Parse(s)
+		}
+		for _, s := range []string{`"p"@[2006-01-02T15:04:05.999999999-07:00]`, `"p"@[yesterday]`, `"p"@[`, `"p"@[]`} {
+			predicate.Parse(s)
+		}
+		for _, s := range []string{`/t<id>`, `/t<id`, `_:b`, `t<id>`} {
+			node.Parse(s)
+		}
+		for _, s := range []string{"/a<b>\t\"p\"@[]\t\"[7 8 x]\"^^type:blob", "/a<b>\t\"p\"@[]\t/c<d>", "/a<b>\t\"p\"@[]"} {
+			triple.Parse(s, b)
+		}
+	})
 }
 
 // flushStable computes the UUIDs again in a child process and emits the US events.
